@@ -708,3 +708,336 @@ Proof.
   destruct Hex as [o Ho]. exists o. eexists. cbn [step step_core]. rewrite Ho, Hs.
   rewrite orb_true_r. reflexivity.
 Qed.
+
+(* ====================================================================================== *)
+(* 10. C03                                                                                *)
+(* ====================================================================================== *)
+Lemma C03_at_most_once tr s p : run init tr = Some s -> nstarts p tr <= 1.
+Proof.
+  intros H. pose proof (starts_count _ _ _ p H) as Hc. pose proof (inv_starts _ (Inv_run _ _ H) p) as Hs.
+  cbn in Hc. rewrite Hs in Hc. destruct (started (p_st (pay s p))); lia.
+Qed.
+
+Lemma C03_started_iff tr s p :
+  run init tr = Some s -> (nstarts p tr = 1 <-> started (p_st (pay s p)) = true).
+Proof.
+  intros H. pose proof (starts_count _ _ _ p H) as Hc. pose proof (inv_starts _ (Inv_run _ _ H) p) as Hs.
+  cbn in Hc. rewrite Hs in Hc. destruct (started (p_st (pay s p))); split; intros; try lia; try discriminate; auto.
+Qed.
+
+Lemma C03_started_where_asked s p f tid loop other ok s' :
+  step s (Start p f tid loop other ok) = Some s' ->
+  f = p_flav (pay s p) /\ ok = true /\
+  (coroutine f = true -> loop <> 0 /\ other = 0) /\
+  (coroutine f = false -> background s p -> loop = 0).
+Proof.
+  intros H. destruct (inv_Start_pay _ _ _ _ _ _ _ _ H) as [_ [Hf [Ho _]]]. split; [exact Hf|]. split; [exact Ho|].
+  split; intros Hc.
+  - step_inv H; try congruence;
+      repeat match goal with [X : _ && _ = true |- _] => apply andb_prop in X; destruct X end;
+      repeat match goal with [X : negb _ = true |- _] => apply negb_true_iff in X end;
+      repeat match goal with [X : (_ =? _) = true |- _] => apply Nat.eqb_eq in X | [X : (_ =? _) = false |- _] => apply Nat.eqb_neq in X end;
+      auto.
+  - intros Hb. unfold background in Hb. step_inv H; try congruence; simp_state;
+      try (rewrite E2 in Hb; discriminate Hb);
+      repeat match goal with [X : _ && _ = true |- _] => apply andb_prop in X; destruct X end;
+      repeat match goal with [X : (_ =? _) = true |- _] => apply Nat.eqb_eq in X end; auto.
+  all: try (cbn in Hb; discriminate Hb).
+Qed.
+
+(* queued payloads only exist for runners that have not been started *)
+Definition queued_ok (s : rt) : Prop :=
+  forall p, p_st (pay s p) = PQueued ->
+    match r_phase (run_ s (p_owner (pay s p))) with
+    | Idle | Rejected | Ended AExclusive => True
+    | _ => False
+    end.
+
+Lemma queued_ok_init : queued_ok init.
+Proof. intros p H. discriminate. Qed.
+
+Lemma phase_step_from_idle s e s' r :
+  step s e = Some s' ->
+  match r_phase (run_ s r) with Idle | Rejected | Ended AExclusive => True | _ => False end ->
+  match r_phase (run_ s' r) with Idle | Rejected | Ended AExclusive => True | _ => False end
+  \/ (e = AcceptCall r /\ r_phase (run_ s r) = Idle /\ guard s = None).
+Proof.
+  intros H Hp. destruct (pay_only e) eqn:Ep.
+  { destruct (frame_runners _ _ _ Ep H) as [Hr _]. rewrite Hr. auto. }
+  destruct e; cbn in Ep; try discriminate Ep.
+  - destruct (inv_AcceptCall _ _ _ H) as [Hi [[[Hg [_ [Hr _]]]|[g [_ [_ [Hr _]]]]] _]]; rewrite Hr;
+      upd_keep r; auto.
+    all: try (right; repeat split; auto; fail); try (left; cbn; exact I).
+  - destruct (inv_AcceptEnd _ _ _ _ H) as [Ha [_ [_ Hr]]]. rewrite Hr. upd_keep r; auto. simp_state.
+    unfold accept_end_ok in Ha. destruct (r_phase (run_ s r)); try contradiction; try discriminate Ha.
+    all: try (destruct o; try discriminate Ha; auto; fail).
+    all: try (destruct o0; contradiction || discriminate Ha).
+  - destruct (inv_RunningSet _ _ _ H) as [_ [Hr [N1 N2]]]. rewrite Hr. upd_keep r; auto.
+  - destruct (inv_ShutdownCall _ _ _ _ H) as [_ [_ Hr]]. rewrite Hr. upd_keep r; auto. simp_state.
+    destruct (r_phase (run_ s r)); auto.
+  - destruct (inv_ShutdownEnd _ _ _ _ H) as [_ [_ [_ Hr]]]. rewrite Hr. upd_keep r; auto.
+  - destruct (inv_Sigint _ _ H) as [_ Hr]. destruct (guard s); rewrite Hr; auto. upd_keep r; auto. simp_state.
+    destruct (r_phase (run_ s r)); auto.
+  - destruct (inv_Start_run _ _ _ _ _ _ _ _ H) as [_ [_ Hs]]. left. destruct (Hs r) as [E _]. rewrite E. exact Hp.
+  - destruct (inv_Finish _ _ _ _ H) as [_ [_ [_ [_ [_ [_ [_ [[Hr _]|[_ [Hl Hr]]]]]]]]]]; rewrite Hr; auto.
+    upd_keep r; auto. destruct (r_phase (run_ s (p_owner (pay s p)))); cbn in Hl; try discriminate; try contradiction.
+    all: try (destruct o0; contradiction || discriminate).
+Qed.
+
+Lemma queued_ok_step s e s' : queued_ok s -> step s e = Some s' -> queued_ok s'.
+Proof.
+  intros Q H p Hq.
+  (* where does the queued state of p in s' come from? *)
+  assert (Hold : (p_st (pay s p) = PQueued /\ p_owner (pay s' p) = p_owner (pay s p))
+                 \/ (exists c r f, e = AdoptCall c r p f /\ p_owner (pay s' p) = r
+                     /\ match r_phase (run_ s r) with Idle | Rejected => True | _ => False end)).
+  { clear Q. step_inv H; simp_state; auto;
+    try (upd_cases p; simp_state; auto; try discriminate Hq; fail).
+    all: try (destruct (flush_st s r p) as [[Hx [_ Hf]]|Hf]; rewrite Hf in *; simp_state; auto; discriminate Hq).
+    all: try (upd_keep p; simp_state; auto; right; exists c, r, f; repeat split; auto;
+              destruct (r_phase (run_ s r)); auto; discriminate Hq). }
+  destruct Hold as [[Ho Hw]|[c [r [f [-> [Hw Hp]]]]]].
+  - rewrite Hw. destruct (phase_step_from_idle _ _ _ (p_owner (pay s p)) H (Q _ Ho)) as [X|[-> [Hi Hg]]]; [exact X|].
+    (* the owner is being started: the flush turns p into a registered payload *)
+    exfalso. destruct (inv_AcceptCall _ _ _ H) as [_ [[[_ [_ [_ Hp]]]|[g [Hg' _]]] _]]; [|congruence].
+    rewrite Hp in Hq. unfold flush_queue in Hq. rewrite Ho, Nat.eqb_refl in Hq. cbn in Hq. discriminate.
+  - rewrite Hw. destruct (frame_runners s (AdoptCall c r p f) s' eq_refl H) as [Hr _]. rewrite Hr.
+    destruct (r_phase (run_ s r)); auto; contradiction.
+Qed.
+
+Lemma queued_ok_run tr s : run init tr = Some s -> queued_ok s.
+Proof. intros H. eapply (run_inv queued_ok queued_ok_step); [apply queued_ok_init|exact H]. Qed.
+
+Lemma owed_pay_nil s p : quiescent s = true -> In p (pids s) -> owed_pay s p = [].
+Proof.
+  unfold quiescent. destruct (owed s) eqn:E; [|discriminate]. intros _ Hin.
+  unfold owed in E. apply app_eq_nil in E. destruct E as [E _].
+  destruct (owed_pay s p) eqn:Ep; [reflexivity|]. exfalso.
+  assert (Hx : In o (flat_map (owed_pay s) (pids s))).
+  { apply in_flat_map. exists p. split; [exact Hin|]. rewrite Ep. left. reflexivity. }
+  rewrite E in Hx. destruct Hx.
+Qed.
+
+(* how a not-yet-started record was created determines its origin *)
+Definition origin_ok (s : rt) : Prop :=
+  forall q, match p_st (pay s q) with
+            | PUnit | PDropped => p_origin (pay s q) = OrService
+            | PExecPending => is_exec (p_origin (pay s q)) = true
+            | _ => True
+            end.
+
+Lemma origin_ok_step s e s' : origin_ok s -> step s e = Some s' -> origin_ok s'.
+Proof.
+  intros I H p. pose proof (I p) as Ip. clear I. step_inv H; simp_state;
+  try (upd_cases p); simp_state; try exact Ip; try exact I; try reflexivity;
+  try (rw_all; simp_state; (congruence || reflexivity || exact I)).
+  all: try (destruct (flush_st s r p) as [[Hq [_ Hf]]|Hf]; rewrite Hf; simp_state; rewrite ?Est;
+            try exact Ip; try exact I; try congruence; fail).
+  all: try (destruct (r_phase (run_ s r)); exact I).
+Qed.
+
+Lemma origin_ok_run tr s : run init tr = Some s -> origin_ok s.
+Proof. intros H. eapply (run_inv origin_ok origin_ok_step); [|exact H]. intros q. exact I. Qed.
+
+(* exactly once at quiescence: every payload adopted into a runner that is Up has been started
+   exactly once, and its adopt call has returned *)
+Lemma C03_exactly_once_at_quiescence tr s r p :
+  run init tr = Some s -> quiescent s = true -> r_phase (run_ s r) = Up ->
+  p_st (pay s p) <> PUnknown -> p_origin (pay s p) = OrAdopt -> p_owner (pay s p) = r ->
+  nstarts p tr = 1 /\ p_adopting (pay s p) = false.
+Proof.
+  intros H Hq Hu Hk Hor How. pose proof (Inv_run _ _ H) as I.
+  assert (Hin : In p (pids s)).
+  { destruct (in_dec Nat.eq_dec p (pids s)) as [i|n]; [exact i|].
+    rewrite (proj2 (inv_ids _ I) _ n) in Hk. cbn in Hk. congruence. }
+  pose proof (owed_pay_nil _ _ Hq Hin) as Ho. unfold owed_pay in Ho. rewrite How, Hu in Ho. cbn in Ho.
+  apply app_eq_nil in Ho. destruct Ho as [Ho1 Ho2]. split.
+  - apply (C03_started_iff _ _ _ H).
+    pose proof (origin_ok_run _ _ H p) as Og. pose proof (queued_ok_run _ _ H p) as Qg.
+    destruct (p_st (pay s p)) eqn:Est; cbn; try reflexivity; try congruence; try discriminate Ho2.
+    all: try (specialize (Qg eq_refl); rewrite How, Hu in Qg; destruct Qg; fail).
+    all: try (rewrite Og in Hor; discriminate Hor).
+    all: try (rewrite Hor in Og; discriminate Og).
+  - destruct (p_adopting (pay s p)); [discriminate Ho1|reflexivity].
+Qed.
+
+(* services: at quiescence of a running, accepting runner no live service unit is left unstarted *)
+Lemma C03_services_started tr s r sv :
+  run init tr = Some s -> quiescent s = true -> guard s = Some r -> r_phase (run_ s r) = Up ->
+  r_running (run_ s r) = true -> p_st (pay s sv) <> PUnit.
+Proof.
+  intros H Hq Hg Hu Hr Hst. pose proof (Inv_run _ _ H) as I.
+  assert (Hin : In sv (pids s)).
+  { destruct (in_dec Nat.eq_dec sv (pids s)) as [i|n]; [exact i|].
+    rewrite (proj2 (inv_ids _ I) _ n) in Hst. discriminate. }
+  pose proof (owed_pay_nil _ _ Hq Hin) as Ho. unfold owed_pay in Ho. rewrite Hst, Hg, Hu, Hr in Ho.
+  apply app_eq_nil in Ho. destruct Ho as [_ Ho]. discriminate Ho.
+Qed.
+
+Lemma C03_adopt_never_raises s p s' :
+  step s (AdoptEnd p false) = Some s' -> phase_ended (r_phase (run_ s (p_owner (pay s p)))) = true.
+Proof. intros H. step_inv H. apply andb_prop in E. destruct E as [_ E]. exact E. Qed.
+
+(* ====================================================================================== *)
+(* 11. C10                                                                                *)
+(* ====================================================================================== *)
+Lemma C10_outcome s p o same s' :
+  step s (ExecEnd p o same) = Some s' ->
+  p_st (pay s p) = PDone o /\ is_exec (p_origin (pay s p)) = true /\
+  (same = true \/ (p_flav (pay s p) = Aio /\ o = ORaiseExc aio_copied_exc)).
+Proof.
+  intros H. step_inv H.
+  repeat match goal with [X : _ && _ = true |- _] => apply andb_prop in X; destruct X end.
+  assert (Ho : o = o0).
+  { destruct o, o0; cbn in *; try discriminate; try reflexivity;
+      match goal with [X : (_ =? _) = true |- _] => apply Nat.eqb_eq in X; subst; reflexivity end. }
+  subst o0. split; [reflexivity|]. split; [assumption|].
+  match goal with [X : _ || _ = true |- _] => apply orb_prop in X; destruct X as [X|X]; [left; exact X|];
+    right; apply andb_prop in X; destruct X as [X1 X2] end. split.
+  - destruct (p_flav (pay s p)); cbn in X1; try discriminate; reflexivity.
+  - destruct o; cbn in X2; try discriminate. apply Nat.eqb_eq in X2. subst. reflexivity.
+Qed.
+
+(* frame: calling execute and receiving its result touch no runner record, not the guard, and no
+   other payload *)
+Lemma C10_frame_call s c tid r p f s' :
+  step s (ExecCall c tid r p f) = Some s' ->
+  run_ s' = run_ s /\ guard s' = guard s /\ forall q, q <> p -> pay s' q = pay s q.
+Proof.
+  intros H. destruct (frame_runners s (ExecCall c tid r p f) s' eq_refl H) as [A B]. split; [exact A|]. split; [exact B|].
+  intros q Hq. step_inv H; simp_state. apply upd_other. exact Hq.
+Qed.
+
+Lemma C10_frame_end s p o same s' :
+  step s (ExecEnd p o same) = Some s' ->
+  run_ s' = run_ s /\ guard s' = guard s /\ forall q, q <> p -> pay s' q = pay s q.
+Proof.
+  intros H. destruct (frame_runners s (ExecEnd p o same) s' eq_refl H) as [A B]. split; [exact A|]. split; [exact B|].
+  intros q Hq. step_inv H; simp_state. apply upd_other. exact Hq.
+Qed.
+
+(* whatever an executed payload returns or raises is not a background failure *)
+Lemma C10_frame_finish s p o s' :
+  step s (Finish p o) = Some s' -> is_exec (p_origin (pay s p)) = true ->
+  run_ s' = run_ s /\ guard s' = guard s /\ forall q, q <> p -> pay s' q = pay s q.
+Proof.
+  intros H Hx. destruct (inv_Finish _ _ _ _ H) as [_ [Hg [Hp [_ [_ [_ [_ [[Hr _]|[Hn _]]]]]]]]].
+  - split; [exact Hr|]. split; [exact Hg|]. intros q Hq. rewrite Hp. apply upd_other. exact Hq.
+  - congruence.
+Qed.
+
+(* ====================================================================================== *)
+(* 12. C12                                                                                *)
+(* ====================================================================================== *)
+Lemma C12_exclusive tr s :
+  run init tr = Some s ->
+  (forall a b, live s a -> live s b -> a = b) /\ (forall r, guard s = Some r <-> live s r).
+Proof.
+  intros H. pose proof (inv_guard _ (Inv_run _ _ H)) as G. split.
+  - intros a b. apply live_unique. exact G.
+  - intros r. split; [apply (proj1 G)|apply (proj2 G)].
+Qed.
+
+Lemma C12_second_accept_undisturbed s r1 r2 s' :
+  guard s = Some r1 -> step s (AcceptCall r2) = Some s' ->
+  r_phase (run_ s' r2) = Rejected /\ guard s' = Some r1 /\ pay s' = pay s
+  /\ (forall r, r <> r2 -> run_ s' r = run_ s r)
+  /\ forall o s'', step s' (AcceptEnd r2 o) = Some s'' -> o = AExclusive.
+Proof.
+  intros Hg H. destruct (inv_AcceptCall _ _ _ H) as [_ [[[Hn _]|[g [Hs [Hg' [Hr Hp]]]]] _]]; [congruence|].
+  assert (Hph : r_phase (run_ s' r2) = Rejected) by (rewrite Hr, upd_same; reflexivity).
+  split; [exact Hph|]. split; [congruence|]. split; [exact Hp|]. split.
+  - intros r Hne. rewrite Hr. apply upd_other. exact Hne.
+  - intros o s'' He. destruct (inv_AcceptEnd _ _ _ _ He) as [Ha _]. unfold accept_end_ok in Ha.
+    rewrite Hph in Ha. destruct o; try discriminate Ha. reflexivity.
+Qed.
+
+Lemma C12_restart tr s r o s' r' :
+  run init tr = Some s -> live s r -> step s (AcceptEnd r o) = Some s' ->
+  guard s' = None /\
+  (r_phase (run_ s' r') = Idle -> exists s'', step s' (AcceptCall r') = Some s'' /\ r_phase (run_ s'' r') = Up).
+Proof.
+  intros H Hl He. pose proof (inv_guard _ (Inv_run _ _ H)) as [_ G2].
+  destruct (inv_AcceptEnd _ _ _ _ He) as [_ [_ [Hg _]]]. rewrite (G2 _ Hl) in Hg. unfold release in Hg.
+  rewrite Nat.eqb_refl in Hg. split; [exact Hg|].
+  intros Hi. cbn [step step_core]. rewrite Hi, Hg. eexists. split; [reflexivity|].
+  simp_state. rewrite upd_same. reflexivity.
+Qed.
+
+Lemma owed_shutdown s r :
+  In r (rids s) -> r_shut_ret (run_ s r) < r_shut_req (run_ s r) -> quiescent s = false.
+Proof.
+  intros Hin Hc. unfold quiescent. destruct (owed s) eqn:E; [|reflexivity]. exfalso.
+  unfold owed in E. apply app_eq_nil in E. destruct E as [_ E].
+  assert (Hx : In (OShutdownEnd r) (flat_map (owed_run s) (rids s))).
+  { apply in_flat_map. exists r. split; [exact Hin|]. unfold owed_run. apply in_or_app. right.
+    apply Nat.ltb_lt in Hc. rewrite Hc. left. reflexivity. }
+  rewrite E in Hx. destruct Hx.
+Qed.
+
+(* a runner with a shutdown request has reported running and is no longer Up *)
+Definition Sok (i : rinfo) : Prop :=
+  (r_running i = true -> r_phase i <> Idle /\ r_phase i <> Rejected) /\
+  (0 < r_shut_req i -> r_running i = true /\ r_phase i <> Up).
+
+Lemma Sok_same i j : same_but_home i j -> Sok j -> Sok i.
+Proof.
+  unfold same_but_home, Sok. intros [H1 [H2 [H3 _]]] R. rewrite H1, H2, H3. exact R.
+Qed.
+
+Definition all_Sok (s : rt) : Prop := forall r, Sok (run_ s r).
+
+Lemma all_Sok_step s e s' : all_Sok s -> step s e = Some s' -> all_Sok s'.
+Proof.
+  intros R H. destruct (pay_only e) eqn:Ep.
+  { destruct (frame_runners _ _ _ Ep H) as [Hr _]. intros r. rewrite Hr. apply R. }
+  destruct e; cbn in Ep; try discriminate Ep; intros r'.
+  - destruct (inv_AcceptCall _ _ _ H) as [Hi [[[_ [_ [Hr _]]]|[g [_ [_ [Hr _]]]]] _]]; rewrite Hr;
+      upd_keep r'; auto; destruct (R r') as [S1 S2]; unfold Sok; simp_state; rewrite Hi in *;
+      (split; [intros X; destruct (S1 X); congruence|intros X; destruct (S2 X) as [Y _]; destruct (S1 Y); congruence]).
+  - destruct (inv_AcceptEnd _ _ _ _ H) as [Ha [_ [_ Hr]]]. rewrite Hr. upd_keep r'; auto.
+    destruct (R r') as [S1 S2]. unfold Sok; simp_state. split; [intros; split; discriminate|].
+    intros X. destruct (S2 X). split; [assumption|discriminate].
+  - destruct (inv_RunningSet _ _ _ H) as [_ [Hr [N1 N2]]]. rewrite Hr. upd_keep r'; auto.
+    destruct (R r') as [S1 S2]. unfold Sok; simp_state. split; [auto|]. intros X. destruct (S2 X). auto.
+  - destruct (inv_ShutdownCall _ _ _ _ H) as [_ [Hrun Hr]]. rewrite Hr. upd_keep r'; auto.
+    destruct (R r') as [S1 S2]. destruct (S1 Hrun) as [A B]. unfold Sok; simp_state.
+    destruct (r_phase (run_ s r')); try congruence; (split; [intros; split; discriminate|intros; split; [exact Hrun|discriminate]]).
+  - destruct (inv_ShutdownEnd _ _ _ _ H) as [_ [_ [_ Hr]]]. rewrite Hr. upd_keep r'; auto.
+    destruct (R r') as [S1 S2]. unfold Sok; simp_state. auto.
+  - destruct (inv_Sigint _ _ H) as [_ Hr]. destruct (guard s); rewrite Hr; auto. upd_keep r'; auto.
+    destruct (R r') as [S1 S2]. unfold Sok; simp_state.
+    destruct (r_phase (run_ s r')) eqn:Eq; auto.
+    split; [intros; split; discriminate|]. intros X. destruct (S2 X). split; [assumption|discriminate].
+  - destruct (inv_Start_run _ _ _ _ _ _ _ _ H) as [_ [_ Hs]]. eapply Sok_same; [apply Hs|apply R].
+  - destruct (inv_Finish _ _ _ _ H) as [_ [_ [_ [_ [_ [_ [_ [[Hr _]|[_ [Hl Hr]]]]]]]]]]; rewrite Hr; auto.
+    upd_keep r'; auto. destruct (R (p_owner (pay s p))) as [S1 S2]. unfold Sok, finish_rec.
+    destruct (r_phase (run_ s (p_owner (pay s p)))) eqn:Eq; cbn in Hl; try discriminate Hl;
+      destruct o; try destruct (p_flav (pay s p)); simp_state; rewrite ?Eq; cbn [phase_up];
+      (split; [intros X; try (destruct (S1 X)); split; (discriminate || congruence)|
+               intros X; destruct (S2 X); split; [assumption|(discriminate || congruence)]]).
+Qed.
+
+Lemma all_Sok_run tr s : run init tr = Some s -> all_Sok s.
+Proof.
+  intros H. eapply (run_inv all_Sok all_Sok_step); [|exact H].
+  intros r. unfold Sok. cbn. split; [discriminate|lia].
+Qed.
+
+(* shutdown completes: once shutdown() has been called on a runner (which must have reported running)
+   and nothing is owed any more, the accept call has ended and every shutdown call has returned *)
+Lemma C12_shutdown_completes tr s r :
+  run init tr = Some s -> quiescent s = true -> 0 < r_shut_req (run_ s r) ->
+  r_shut_ret (run_ s r) >= r_shut_req (run_ s r) /\ exists o, r_phase (run_ s r) = Ended o.
+Proof.
+  intros H Hq Hs. pose proof (Inv_run _ _ H) as I.
+  assert (Hin : In r (rids s)).
+  { destruct (in_dec Nat.eq_dec r (rids s)) as [i|n]; [exact i|].
+    rewrite (proj1 (inv_ids _ I) _ n) in Hs. cbn in Hs. lia. }
+  split.
+  - destruct (le_lt_dec (r_shut_req (run_ s r)) (r_shut_ret (run_ s r))) as [L|L]; [exact L|].
+    rewrite (owed_shutdown _ _ Hin L) in Hq. discriminate.
+  - destruct (all_Sok_run _ _ H r) as [S1 S2]. destruct (S2 Hs) as [Hrun Hup]. destruct (S1 Hrun) as [A B].
+    destruct (r_phase (run_ s r)) eqn:Ep; try congruence; eauto.
+    exfalso. rewrite (owed_closing _ _ Hin) in Hq; [discriminate|]. left. rewrite Ep. reflexivity.
+Qed.
